@@ -24,9 +24,14 @@ OBLIGATIONS = [
     'C02.transpile_port_assign_sound', 'C02.transpile_cond_sound',
     # statement / cycle / history level
     'C02.trS_sound', 'C02.cycle_sound', 'C02.transpile_seq_sound_partial', 'C02.fstore_laws', 'C02.agree0', 'C02.crel0', 'C02.okS0',
-    'C02.refuse_or_sound',
+    'C02.refuse_or_sound', 'C02.refuse_complete',
+    # combinational bodies
+    'C02.p2p_exec', 'C02.comb_sound', 'C02.transpile_comb_sound_all', 'C02.supported_comb', 'C02.crelC', 'C02.okC0', 'C02.norap0',
+    # power-up
+    'C02.cycle_soundB', 'C02.runD_mono', 'C02.execD_masked', 'C02.powerup_crel', 'C02.initial_block_sound', 'C02.trModule_items',
+    'C02.transpile_seq_sound_from_powerup', 'C02.powerup_safe_of_noOutRead', 'C02.powerup0',
     # negative results (each replayed on the real transpiler by the witnesses)
-    'C02.or_value_counterexample', 'C02.narrow_compare_counterexample', 'C02.cmp_rhs_precedence_counterexample',
+    'C02.or_value_counterexample', 'C02.narrow_compare_counterexample', 'C02.cmp_rhs_unparenthesised_counterexample',
     'C02.guard_fallthrough_counterexample', 'C02.uninit_output_counterexample', 'C02.bit31_counterexample',
 ]
 
@@ -54,7 +59,7 @@ PROPOSED_FINDINGS = [
      "class_expr": "'bool-value' in r.get('reasons', []) and r.get('kind') in ('mismatch','x-after-write','x-state','x-consequence')",
      "witness": {"src": "x = self.a.get() or self.b.get(); self.r.prepare(x)", "history": [{"a": 5, "b": 0}], "signal": "r", "sim": 5, "verilog": 1},
      "what": "`a or b` / `a and b` used as a VALUE is emitted as `a||b` / `a&&b` (0/1) while Python returns one of the operands"},
-    {"id": "C02-cmp-rhs-precedence", "property": "C02", "status": "known", "anchor": "py4hw/transpilation/python2verilog_transpilation.py:537",
+    {"id": "C02-cmp-rhs-precedence", "property": "C02", "status": "fixed", "fixed_by": "72c6814", "anchor": "py4hw/transpilation/python2verilog_transpilation.py:537",
      "class_expr": "'cmp-rhs-prec' in r.get('reasons', []) and r.get('kind') in ('mismatch','x-after-write','x-state','x-consequence')",
      "witness": {"src": "if self.a.get() == self.b.get() & 1: self.r.prepare(1)\nelse: self.r.prepare(0)", "history": [{"a": 3, "b": 3}], "signal": "r", "sim": 0, "verilog": 1},
      "what": "the right operand of a comparison is kept as a bare list and emitted without parentheses: `a == (b & 1)` becomes `a==b&1`, "
@@ -98,7 +103,7 @@ PROPOSED_FINDINGS = [
              "negative constructor constants / port attributes used as values are outside the proved fragment"},
     {"id": "C02-uninit-output-regs", "property": "C02", "status": "known", "anchor": "py4hw/rtl_generation.py:715",
      "class_expr": "r.get('kind')=='x-at-powerup' or (r.get('kind') in ('x-after-write','x-consequence','x-state') and r.get('reads_own_output') "
-                   "and r.get('tainted'))",
+                   "and r.get('tainted') and not r.get('powerup_safe'))",
      "witness": {"class": "CounterBehavioural (test/unit/Test_RtlGeneration.py)", "history": [{"inc": 1}, {"inc": 1}], "signal": "q"},
      "what": "transpiled output ports are declared `output reg` without initial value: every output is x until first assigned while the "
              "simulator shows 0, and a block that reads its own output (CounterBehavioural: q <= q+1) stays x forever while the simulator counts 1,2,3"},
@@ -429,6 +434,7 @@ class Batch:
         real, rerr = d.run_real(hist)
         supported, reasons = None, []
         dom = [True] * len(hist)
+        pu = [None] * len(hist)      # power-up safe so far (no output read before written): Tp.initStU run alive; None = unknown
         # ---- Lean Python-side model vs real simulator
         if d.syntax and lean_out:
             head = lean_out[0].split('|')
@@ -467,6 +473,8 @@ class Batch:
                         break
                     if f[1] != '1':
                         dom[k:] = [False] * (len(hist) - k)
+                    if len(f) > 4:
+                        pu[k] = f[4] == '1'
                     mw = dict(x.split('=') for x in f[2].split(',') if x)
                     ms = dict(x.split('=') for x in f[3].split(',') if x) if len(f) > 3 else {}
                     bad = None
@@ -561,10 +569,12 @@ class Batch:
                 res.hist('oracle_outcomes', kind)
                 fail(res, f'{d.label}: cycle {k} signal {name}: simulator {want}, Verilog {got} ({kind})',
                      dict(base, kind=kind, cycle=k, signal=name, sim=want, verilog=got, history=hist[:k + 1], tainted=tainted,
+                          powerup_safe=pu[k],
                           text=d.text[-500:] if kind == 'mismatch' else None))
         if 'did not settle' in (vr.get('errors') or '') and cmp_cycles:
             fail(res, f'{d.label}: emitted combinational block does not settle', dict(base, kind='v-error', error=vr['errors'][:100]))
         res.hist('compared_cycles', 'in-domain', cmp_cycles)
+        res.hist('compared_cycles', 'in-domain-and-powerup-safe', sum(1 for k in range(cmp_cycles) if pu[k]))
         res.hist('compared_cycles', 'out-of-domain-or-raised', len(hist) - cmp_cycles)
         res.count((d.label, str(hist)[:200]), hist={'dut_profile': d.profile})
 
@@ -710,7 +720,8 @@ WITNESSES = [  # (class, history, expected finding id)
     # regression (fixed 23b4fbe): `case _ if g:` must be refused by the real transpiler
     ('WGuardedWildcard', [{'a': 1, 'b': 0}, {'a': 0, 'b': 0}, {'a': 3, 'b': 0}], 'regression:refuse'),
     ('WOrValue', [{'a': 5, 'b': 0}, {'a': 5, 'b': 0}], 'C02-bool-value'),
-    ('WCmpRhs', [{'a': 3, 'b': 3}, {'a': 3, 'b': 3}], 'C02-cmp-rhs-precedence'),
+    # regression (fixed 72c6814): `a == b & 1` must be emitted `a==(b&1)`, be Tp.supported and agree
+    ('WCmpRhs', [{'a': 3, 'b': 3}, {'a': 3, 'b': 3}, {'a': 1, 'b': 3}, {'a': 0, 'b': 2}, {'a': 1, 'b': 1}], 'regression:agree'),
     ('WNarrow', [{'a': 200, 'b': 100}, {'a': 200, 'b': 100}], 'C02-narrow-context'),
     ('WNarrowAssign', [{'a': 200, 'b': 1}, {'a': 255, 'b': 1}], 'C02-narrow-context'),
     ('WDoublePut', [{'a': 1, 'b': 2}], 'C02-read-after-put'),
@@ -861,6 +872,24 @@ def run_all(res, tier, rng, tmpdir, quick):
         res.hist('witness_reproduced', fid, 1 if hit else 0)
         if not hit:
             res.notes.append(f'witness {cname} no longer reproduces {fid} (defect fixed or behaviour changed)')
+    # ---- (3b) the refusal stream is exhaustive over the node kinds of the running Python's `ast`
+    unclassified, gone, missing = c02_gen.ast_kind_audit()
+    for k in unclassified:
+        res.broken.append(('correspondence', 'refusal-stream', f'ast node kind {k} is neither in the subset nor covered by a refusal case'))
+    for k in missing:
+        res.broken.append(('correspondence', 'refusal-stream', f'refusal kind {k} named in AST_KINDS has no snippet'))
+    for kind_name, (st_, v_) in c02_gen.AST_KINDS.items():
+        res.hist('ast_node_kinds', st_)
+        if st_ == 'refuse':
+            for rk_ in v_:
+                src_ = c02_gen.gen_class(rng.fork(('astchk', rk_)), 0, 'safe', refuse_kind=rk_)['src']
+                try:
+                    names_ = {type(n_).__name__ for n_ in ast.walk(ast.parse(src_))}
+                except SyntaxError as e_:
+                    res.broken.append(('correspondence', 'refusal-stream', f'snippet {rk_} is not valid Python: {e_}'))
+                    continue
+                if kind_name not in names_:
+                    res.broken.append(('correspondence', 'refusal-stream', f'snippet {rk_} does not contain an ast.{kind_name} node'))
     # ---- (4) generated classes
     n_gen = dict(safe=90, wild=70, refuse=len(c02_gen.REFUSE_KINDS)) if quick else dict(safe=4000, wild=2500, refuse=5 * len(c02_gen.REFUSE_KINDS))
     chunk = 40
